@@ -254,9 +254,14 @@ func runCheck(o checkOpts) int {
 				time.Sleep(300 * time.Millisecond)
 				ob.Res = solve(ob.Name, q, o.timeout, needAgree)
 			}
-			if ob.Res.Status != "unsat" && (ob.Res.Status == "timeout" || ob.Res.Status == "unknown") && o.timeout < 60 {
-				// one retry at 4x before reporting
-				ob.Res = solve(ob.Name, q, o.timeout*3, 1)
+			if ob.Res.Status != "unsat" && (ob.Res.Status == "timeout" || ob.Res.Status == "unknown") {
+				// one retry with the larger portfolio (extra z3 seeds) before reporting: quick 5x the
+				// timeout, thorough 2x and still two agreeing instances
+				if o.timeout < 60 {
+					ob.Res = solveRetry(ob.Name, q, o.timeout*5, 1)
+				} else {
+					ob.Res = solveRetry(ob.Name, q, o.timeout*2, needAgree)
+				}
 			}
 			if ob.Res.Status != "unsat" && (o.keep || true) {
 				dir := filepath.Join(o.verif, "evidence", "replay")
@@ -862,7 +867,7 @@ func vacSolve(name, q string, timeoutS int) SolveResult {
 			return SolveResult{Status: "not-unsat", Cached: true}
 		}
 	}
-	r := solveUncached(name, q, timeoutS, 1)
+	r := solveUncached(solvers, name, q, timeoutS, 1)
 	if cd != "" && r.Status != "unsat" && r.Status != "error" {
 		os.MkdirAll(cd, 0o755)
 		os.WriteFile(ck, []byte(r.Status), 0o644)
